@@ -3,6 +3,7 @@
 /verif/seeded/<ID>-<name>/ (patch.diff, demonstration, meta.json) and removes the scratch worktree."""
 import json, os, shutil, subprocess, sys
 pid, name, sd, wt, detected = sys.argv[1:6]
+keepwt = len(sys.argv) > 6 and sys.argv[6] == "keepwt"
 dst = "/verif/seeded/%s-%s" % (pid, name)
 os.makedirs(dst, exist_ok=True)
 shutil.copy(os.path.join(sd, "patch.diff"), dst)
@@ -20,6 +21,7 @@ meta = {"property": pid, "name": name,
                 "git -C /repo apply patch.diff; bin/check %s quick; git -C /repo checkout -- ." % pid],
         "detected_by": detected}
 json.dump(meta, open(os.path.join(dst, "meta.json"), "w"), indent=1)
-subprocess.run(["git", "-C", "/repo", "worktree", "remove", "--force", wt])
+if not keepwt:
+    subprocess.run(["git", "-C", "/repo", "worktree", "remove", "--force", wt])
 shutil.rmtree(sd, ignore_errors=True)
 print("kept", dst)
